@@ -98,12 +98,16 @@ def mutate(g, raw):
     b = bytearray(raw)
     if k == 'field':
         fs = [f for f in frame_fields(raw) if f[0] + f[1] <= len(raw)]
+        if not fs:
+            return bytes(b) + b'\x00', 'append a byte'
         off, wd, name = fs[g.draw(len(fs), 'fld')]
         cur = int.from_bytes(b[off:off + wd], 'little')
         top = (1 << (8 * wd)) - 1
         nv = g.choice([0, 1, cur + 1, max(cur - 1, 0), cur * 2, cur + 2, top, top - 1, top >> 1, g.draw(top + 1, 'rv') if top < 70000 else g.draw(70000, 'rv')], 'nv') & top
         b[off:off + wd] = nv.to_bytes(wd, 'little')
         return bytes(b), 'field %s %d->%d' % (name, cur, nv)
+    if not b:
+        return b'\x00', 'single zero byte'
     if k == 'bitflip':
         n = 1 + g.draw(3, 'nflip')
         pos = []
@@ -172,7 +176,7 @@ def op_from_decoded(d):
 def c08(tapes, params):
     w = EnipWorld(tapes, params, count_calls=True)
     g = w.gen
-    w.gen_tags(ntags=g.between(2, 4, 'ntags'), maxlen=params.get('maxlen', 30))
+    w.gen_tags(ntags=g.between(2, 4, 'ntags'), maxlen=params.get('maxlen', 30), min_storages=2)
     w.start_server()
     tags = sorted(w.model.tags.values(), key=lambda t: t.name)
     sids = []
@@ -272,20 +276,27 @@ def c08(tapes, params):
             return []
 
     def explain(frames, real_differs):
-        """Some subset (in order) of the newly completed frames, executed with the model's
-        semantics, must produce the observed state.  Returns True and leaves the model there."""
+        """Some subset (in order) of the write requests spelled by the newly completed frames
+        (a bundle counts member by member), executed with the model's semantics, must produce the
+        observed state.  Returns True and leaves the model there."""
         base = w.model.snapshot()
-        writes = [frame_writes(f) for f in frames]
-        idx = [i for i, ops in enumerate(writes) if ops]
-        for mask in range(1, 1 << len(idx)):
+        ops = []
+        for f in frames:
+            ops += frame_writes(f)
+        if not ops:
+            return False
+        if len(ops) <= 10:
+            masks = range(1, 1 << len(ops))
+        else:
+            masks = [(1 << k) - 1 for k in range(1, len(ops) + 1)]       # prefixes only
+        for mask in masks:
             w.model.restore(base)
-            for b, i in enumerate(idx):
+            for b, op in enumerate(ops):
                 if (mask >> b) & 1:
-                    for op in writes[i]:
-                        try:
-                            w.model.apply(op)
-                        except Exception:
-                            pass
+                    try:
+                        w.model.apply(op)
+                    except Exception:
+                        pass
             if not real_differs():
                 return True
         w.model.restore(base)
@@ -402,7 +413,9 @@ def lenient_item1(data):
     if len(data) < 6 + 2 + 4 + 4:
         return None
     off = 8
-    l0 = struct.unpack_from('<H', data, off + 2)[0]
+    t0, l0 = struct.unpack_from('<HH', data, off)
+    if off + 4 + l0 + 4 > len(data):
+        l0 = 4 if t0 == 0x00A1 else 0       # inconsistent length: the item type's own size
     off += 4 + l0
     if off + 4 > len(data):
         return None
